@@ -1,9 +1,4 @@
-"""C17 constants: bit layout of the callback id word (src/torrent/system/thread.cc, common.h)."""
-ENTRIES = [
-    ("c17_cancel_increment", "src/torrent/system/thread.cc", r"Thread::cancel_callback\(system::callback_id& id\) \{.*?id->fetch_add\((0x[0-9a-f]+),", "N"),
-    ("c17_cw_increment", "src/torrent/system/thread.cc", r"compare_exchange_weak\(current_id, current_id \+ (0x[0-9a-f]+),", "N"),
-    ("c17_count_mask", "src/torrent/system/thread.cc", r"auto counter\s*=\s*\(current_id & (0x[0-9a-f]+)\);", "N"),
-    ("c17_expected_mask_inv", "src/torrent/system/thread.cc", r"\(previous_id & ~(0x[0-9a-f]+)\) != callback.expected_id", "N"),
-    ("c17_deadlock_flag", "src/torrent/system/thread.cc", r"pre_deadlock_id \| (0x[0-9a-f]+),", "N"),
-    ("c17_id_word_bits", "src/torrent/system/common.h", r"using callback_id\s*=\s*std::shared_ptr<std::atomic<uint(\d+)_t>>;", "N"),
-]
+"""C17 constants (bit layout of the callback id word) are read from the COMPILED code by behavioural probes
+(harness/c17.cc --params -> coq/C17/ParamsProbe.v, written by props/c17.py), so that a refactor of the source
+text (named constants, merged branches) cannot break the obligation. ENTRIES (regex on the source) is empty."""
+ENTRIES = []
